@@ -357,6 +357,23 @@ func (g *Gen) modStatic(fx *fnExec, ct *Contract, info *calleeInfo, cc *ssa.Call
 		}
 	case *ECall:
 		switch x.Fn {
+		case "pointee":
+			if id, ok := x.Args[0].(*EIdent); ok {
+				if v, ok := argv[id.Name]; ok {
+					if mi, ok := v.(*ssa.MakeInterface); ok {
+						if _, isPtr := mi.X.Type().Underlying().(*types.Pointer); isPtr {
+							cells := map[*ssa.Alloc]bool{}
+							fx.staticStoreTarget(mi.X, cells, &locs)
+							for c := range cells {
+								locs = append(locs, loc{cellLocal: c})
+							}
+							return locs, "", mi.X
+						}
+						return nil, "", nil
+					}
+				}
+			}
+			return nil, "", nil
 		case "elems":
 			t := g.staticType(x.Args[0], names)
 			if t != nil {
